@@ -100,6 +100,68 @@ def check_C01(tier, seed, res, replay=None):
     res.count_cases(cases, nontrivial_pair)
     res.add_samples([c for c in cases if nontrivial_pair(c)][:2] + cases[-1:])
     run_events(res, rd, "incl", cases)
+    agreement_arm(res, rd, tier, seed)
+    # Layer 0: the oracle itself, cross-checked against the naive tree semantics (never depends on the code)
+    shards = list(range(64)) if tier == "thorough" else [(seed * 7 + i * 4) % 64 for i in range(16)]
+    m = vlib.tlc_sharded_check("TAcheck.tla", "TAcheck.cfg", 64, sorted(set(shards)))
+    res.add_model(m)
+    if not m["ok"]:
+        raise vlib.Broken("the Layer-0 oracle TA.tla fails its self-check (%s)" % m["log"])
+    # Layer 2: the upward antichain algorithm for every pair of the bound and EVERY work-list order
+    model_with_mutants(res, "InclUp.tla", "InclUp3.cfg" if tier == "thorough" else "InclUp.cfg",
+                       ["RevSubsume", "NoFinalCheck", "UnionChildren"] if tier == "thorough" else [], "InclUp")
+
+
+def agreement_arm(res, rd, tier, seed):
+    """oracle-free: millions of seeded random pairs generated inside the driver, all 8 selections per pair; only pairs on
+    which the selections disagree (a certain violation of C01) come back, as full 'incl' events that TLC then judges"""
+    nb, per = (1600, 30000) if tier == "thorough" else (96, 20000)
+    batches = [{"id": ["agree", i], "op": "inclagree", "seed": seed * 100003 + i, "count": per, "shape": ["dense", "dense", "mid", "wide"][i % 4],
+                "tmo": 900000} for i in range(nb)]
+    cf = os.path.join(rd, "agree.cases.ndjson")
+    vlib.write_ndjson(cf, batches)
+    shards = vlib.drive(cf, os.path.join(rd, "agree.ev"), timeout_ms=900000)
+    events = []
+    pairs = 0
+    noninc = 0
+    for sh in shards:
+        for ev in vlib.read_ndjson(sh):
+            if ev.get("outcome") != "ok":
+                # a crash / hang inside a batch: the batch itself is the (deterministic) replay
+                events.append(dict(ev, op="incl", A={"fin": [], "rules": []}, B={"fin": [], "rules": []}))
+                continue
+            pairs += ev["res"]["count"]
+            noninc += ev["res"]["nonincluded"]
+            events += ev["res"]["disagree"]
+    res.extra["agreement_arm_pairs"] = pairs
+    res.extra["agreement_arm_nonincluded_pairs"] = noninc
+    res.extra["agreement_arm_disagreements"] = len(events)
+    res.checker_cmds.append("vdrive inclagree x%d batches (8 selections per random pair, disagreements only -> TraceTA)" % nb)
+    if events:
+        ef = os.path.join(rd, "agree.disagree.0.ndjson")
+        vlib.write_ndjson(ef, events)
+        v = vlib.tlc_validate("TraceTA.tla", [ef])
+        res.add_validation(v)
+        res.report_fails(v["fails"], os.path.join(vlib.OUT, "viol"))
+
+
+def model_with_mutants(res, module, cfg, mutants, prefix, timeout=3000):
+    m = vlib.tlc_model(module, cfg, coverage=True, timeout=timeout, heap="16g")
+    res.add_model(m)
+    if not m["ok"]:
+        raise vlib.Broken("the Layer-2 model %s/%s violates %s: it no longer describes a correct design (%s)" % (module, cfg, m["violated"], m["log"]))
+    never = [a for a, c in m["coverage"].items() if c[0] == 0]
+    if never:
+        res.extra.setdefault("model_actions_never_taken", {})[module] = never
+    refuted = 0
+    for mut in mutants:
+        ks, info = vlib.tlc_emit(module, "%s_%s.cfg" % (prefix, mut), "KILLER", timeout=timeout)
+        if info and not info["ok"]:
+            refuted += 1
+    if mutants:
+        res.extra.setdefault("model_mutants_refuted", {})[module] = "%d/%d" % (refuted, len(mutants))
+        if refuted != len(mutants):
+            raise vlib.Broken("a mutant of %s is no longer refuted: the invariants have become vacuous" % module)
 
 
 # ---------------------------------------------------------------------------------------- C02
@@ -151,6 +213,30 @@ def check_C02(tier, seed, res, replay=None):
     res.count_cases(cases, nontrivial_both_nonempty)
     res.add_samples([c for c in cases if nontrivial_both_nonempty(c)][:3])
     run_events(res, rd, "c02", cases)
+    # agreement arm: consequences of the contracts on many more random pairs, judged by TLC only where suspicious
+    nb, per = (800, 20000) if tier == "thorough" else (64, 10000)
+    batches = [{"id": ["c02agree", i], "op": "c02agree", "seed": seed * 7919 + i, "count": per, "shape": ["dense", "mid"][i % 2], "tmo": 900000}
+               for i in range(nb)]
+    cf = os.path.join(rd, "agree.cases.ndjson")
+    vlib.write_ndjson(cf, batches)
+    events, pairs, nonempty = [], 0, 0
+    for sh in vlib.drive(cf, os.path.join(rd, "agree.ev"), timeout_ms=900000):
+        for ev in vlib.read_ndjson(sh):
+            if ev.get("outcome") != "ok":
+                events.append(dict(ev, op="isect", A={"fin": [], "rules": []}, B={"fin": [], "rules": []}))
+                continue
+            pairs += ev["res"]["count"]
+            nonempty += ev["res"]["nonempty_isect"]
+            events += ev["res"]["suspicious"]
+    res.extra["agreement_arm_pairs"] = pairs
+    res.extra["agreement_arm_pairs_with_nonempty_intersection"] = nonempty
+    res.extra["agreement_arm_suspicious"] = len(events)
+    if events:
+        ef = os.path.join(rd, "agree.suspicious.0.ndjson")
+        vlib.write_ndjson(ef, events)
+        v = vlib.tlc_validate("TraceTA.tla", [ef])
+        res.add_validation(v)
+        res.report_fails(v["fails"], os.path.join(vlib.OUT, "viol"))
 
 
 # ---------------------------------------------------------------------------------------- C03
@@ -170,6 +256,7 @@ def single_cases(tier, rng, op, frac_quick, extra=None, nrand_quick=3000, nrand_
         rng.shuffle(d["syms"])
         if extra:
             extra(d, rng)
+        maybe_split(d, rng)
         cases.append(d)
     for i in range(nrand_thorough if tier == "thorough" else nrand_quick):
         A, alpha = gen.rand_ta(rng)
@@ -178,8 +265,15 @@ def single_cases(tier, rng, op, frac_quick, extra=None, nrand_quick=3000, nrand_
         d["syms"] = gen.syms_of(d["A"])
         if extra:
             extra(d, rng)
+        maybe_split(d, rng)
         cases.append(d)
     return cases
+
+
+def maybe_split(d, rng):
+    """ask-twice mode for ops that support it in the driver (trim, reduce, compl, witness; sim sets its own)"""
+    if d["op"] in ("trim", "reduce", "compl", "witness") and len(d["A"]["rules"]) >= 2 and rng.random() < 0.2:
+        d["split"] = rng.randint(1, len(d["A"]["rules"]) - 1)
 
 
 def check_C03(tier, seed, res, replay=None):
@@ -215,6 +309,8 @@ def dense(c, rng):
     c["n"] = len(st)
     # the upward simulation is specified for automata without useless states only
     c["dirs"] = ["down", "up"] if vlib.ta_is_trim(c["A"]) else ["down"]
+    if len(c["A"]["rules"]) >= 2 and rng.random() < 0.35:
+        c["split"] = rng.randint(1, len(c["A"]["rules"]) - 1)      # ask the same object before and after the last rules are added
 
 
 def check_C04(tier, seed, res, replay=None):
